@@ -1856,6 +1856,21 @@ pub fn gen_template(rng: &mut Rng, k: &Knobs, reg: &Registry, name: &str) -> Def
             }
         }
     }
+    // now and then a template instantiates itself (the runner then regenerates its CFG
+    // while it is being analysed)
+    if k.components && !custom && ctx.rng.chance(1, 10) {
+        let args: Vec<String> = params.iter().map(|p| format!("{p} - 1")).collect();
+        let mut src = format!("if ( {} ) {{ component rec = {} ( {} ) ;", params.first().map(|p| format!("{p} > 0")).unwrap_or_else(|| "1 > 0".into()), name, args.join(" , "));
+        for p in &inputs {
+            if p.dims.is_empty() {
+                src.push_str(&format!(" rec . {} <== {} ;", p.name, p.name));
+            } else {
+                src.push_str(&format!(" rec . {} [ 0 ] <== {} [ 0 ] ;", p.name, p.name));
+            }
+        }
+        src.push_str(" }");
+        body.push(Stmt::Raw(src.split_whitespace().map(|s| s.to_string()).collect()));
+    }
     let refs = ctx.refs.clone();
     Def { kind: DefKind::Template { custom, parallel }, name: name.to_string(), params, body: splice_raw(body), inputs, outputs, refs }
 }
